@@ -31,6 +31,7 @@
 -/
 import Kopf.Lemmas.C03_Fail
 import Kopf.Lemmas.C03_Relist
+import Kopf.Lemmas.C03_Change
 namespace Kopf.C03
 open Kopf Kopf.C02
 
@@ -1589,5 +1590,72 @@ example : Uniform envI (stateW (some 0) 1) ∧ (stateW (some 0) 1).gone = false 
   split at hP
   · cases hP; rfl
   · cases hP
+
+/-! ## Where the loop's `base` comes from: every essential change is an outstanding change (seed C03h)
+
+  The loop keeps the essence abstract; `Model/C03_Change.baseClass` is the producer of its `base` class from the JSON
+  values (C04's `diff` = `diff_iter`, whose first case is `_same`). "Differ" is `¬ same (dropNulls ·) (dropNulls ·)`: as
+  JSON values up to null-valued keys (a key holding `null` vs. the key absent is the open finding C04-F10). -/
+
+/-- **Every essential change is an outstanding change**: whatever two well-formed values the last-handled state and the
+    essence are — scalars, mappings, lists, at any depth — if they differ, the cycle that looks at them has an UPDATE
+    before it (not a no-op). No bound on sizes or depths. -/
+theorem outstanding_change_detected (o n : J) (ho : J.WF o) (hn : J.WF n)
+    (h : ¬ C04.same (J.dropNulls o) (J.dropNulls n) = true) :
+    baseClass (some o) n = .diff ∧ (causeOf (stateOfClass (baseClass (some o) n))).reason = .update := by
+  have hd : baseClass (some o) n = .diff :=
+    baseClass_diff_of_diff_ne (fun hnil => h ((C04.diff_nil_iff o n [] ho hn).1 hnil))
+  exact ⟨hd, by rw [hd]; exact causeOf_class_diff⟩
+
+/-- … and nothing else is: equal values (up to null-valued keys) are class `same`, the cycle is a no-op. -/
+theorem no_change_no_cause (o n : J) (ho : J.WF o) (hn : J.WF n)
+    (h : C04.same (J.dropNulls o) (J.dropNulls n) = true) :
+    baseClass (some o) n = .same ∧ (causeOf (stateOfClass (baseClass (some o) n))).reason = .noop := by
+  have hd : baseClass (some o) n = .same := by
+    simp only [baseClass, (C04.diff_nil_iff o n [] ho hn).2 h, List.isEmpty_nil, if_true]
+  exact ⟨hd, by rw [hd]; exact causeOf_class_same⟩
+
+/-- **A list that only grew or shrank is a change**: wherever (any path below mappings) the last-handled state and the
+    essence hold lists of different lengths — an item appended or dropped at the tail, an empty list filled, a list emptied,
+    whatever the items are — the cycle has an UPDATE before it. -/
+theorem list_length_change_detected (e e' : J) (p : C04.Path) (xs ys : List J) (hw : J.WF e) (hw' : J.WF e')
+    (h1 : J.resolveD e p = .arr xs) (h2 : J.resolveD e' p = .arr ys) (hl : xs.length ≠ ys.length) :
+    baseClass (some e) e' = .diff ∧ (causeOf (stateOfClass (baseClass (some e) e'))).reason = .update := by
+  have hd : baseClass (some e) e' = .diff :=
+    baseClass_diff_of_diff_ne (C04.change_detected_at p hw hw' (by rw [h1, h2]; exact arr_ne_of_length hl))
+  exact ⟨hd, by rw [hd]; exact causeOf_class_diff⟩
+
+-- non-vacuity: an item appended at the tail of `spec.items`, and a list emptied
+example : J.WF (.obj [("spec", .obj [("items", .arr [.str "a"])])]) ∧ J.WF (.obj [("spec", .obj [("items", .arr [.str "a", .str "b"])])]) ∧
+    J.resolveD (.obj [("spec", .obj [("items", .arr [.str "a"])])]) ["spec", "items"] = .arr [.str "a"] ∧
+    J.resolveD (.obj [("spec", .obj [("items", .arr [.str "a", .str "b"])])]) ["spec", "items"] = .arr [.str "a", .str "b"] ∧
+    [J.str "a"].length ≠ [J.str "a", J.str "b"].length :=
+  ⟨by unfold J.WF; decide, by unfold J.WF; decide, rfl, rfl, by decide⟩
+
+/-- **The variant of seed C03h fails the property** (`_same` comparing sequences over `zip` without their lengths): the
+    object was handled with `spec.items = ["a"]`, an item is appended — a change by `outstanding_change_detected` — and the
+    variant's cycle is a NO-OP: no handler is selected, nothing is stored, `base` stays the old state for good (the state is
+    the loop's `same` class, quiescent after its one turn), while the real comparison gives the update. Likewise `[]` vs
+    anything. -/
+theorem list_prefix_variant_witness :
+    ∃ o n : J, J.WF o ∧ J.WF n ∧ ¬ C04.same (J.dropNulls o) (J.dropNulls n) = true ∧
+      (causeOf (stateOfClass (baseClass (some o) n))).reason = .update ∧
+      (causeOf (stateOfClass (baseClassBy samePfx (some o) n))).reason = .noop ∧
+      (causeOf (stateOfClass (baseClassBy samePfx (some n) o))).reason = .noop ∧
+      (causeOf (stateOfClass (baseClassBy samePfx (some n) (.obj [("spec", .obj [("items", .arr [])])])))).reason = .noop :=
+  ⟨.obj [("spec", .obj [("items", .arr [.str "a"])])], .obj [("spec", .obj [("items", .arr [.str "a", .str "b"])])],
+    by unfold J.WF; decide, by unfold J.WF; decide, by decide, by decide, by decide, by decide, by decide⟩
+
+/-- the comparison of the real code in the same frame: `baseClassBy C04.same` is `baseClass` -/
+theorem baseClassBy_same (old : Option J) (new : J) :
+    baseClassBy C04.same old new = baseClass old new := by
+  cases old with
+  | none => rfl
+  | some o =>
+    simp only [baseClassBy, baseClass]
+    by_cases hs : C04.same o new = true
+    · have : C04.diff o new [] = [] := C04.diff_of_pyEq [] hs
+      simp [hs, this]
+    · simp [hs]
 
 end Kopf.C03
